@@ -16,10 +16,10 @@ CHECKS = {
             "kaplan_kolmogorov, kaplan_markov, kaplan_wald and wald_sprt checks length, NaN-freedom, range and "
             "overall-vs-history agreement on every call; the workload walks the boundary regimes the property names "
             "(length 1, all-zero, all-u, all equal to t, total > N t at first/middle/last draw, null mean at 0/u/"
-            "beyond, tiny margins) for every shipped estimator/bet, finite and infinite N, random_order on and off. "
+            "beyond, tiny margins, runs of non-representable values, u re-assigned after construction) for every shipped estimator/bet, finite and infinite N, random_order on and off; the repository's own 55 tests are also run with the contract armed. "
             "Held on the executions observed, not a proof.",
-            "trusted: numpy; documented domain exclusions listed in DESIGN.md C11 (finite-N SPRT with random_order="
-            "False, Kaplan-Markov/Wald with finite N, optimal_comparison with u<=1); samples are dyadic floats",
+            "trusted: numpy; documented domain exclusions listed in DESIGN.md C11 and 7.2 (finite-N SPRT with random_order="
+            "False, Kaplan-Markov/Wald with finite N)",
             "DESIGN.md section 4, C11"),
     "C12": ("reference-model monitor: plain-Python loop products vs the real history, entry by entry; ALPHA-vs-betting equivalence and conversion inverses on the same runs",
             "Exploration by runtime monitoring: every history entry returned by the six real tests is compared with a "
@@ -48,7 +48,7 @@ CHECKS = {
     "C01": ("exact-count monitor: the real test is executed on every distinct ordering of small null populations and on every sequence of small null laws; rejection frequencies compared exactly with alpha",
             "Exploration by runtime monitoring with an exact-count oracle: each cell fixes a shipped (test, estimator/bet, "
             "tuning) configuration and a null population (dyadic multiset, mean <= t, N <= 8 quick / <= 11 thorough) or a "
-            "null law (2-3 atoms, dyadic weights, all k^n sequences, n <= 7 / 9); the real code is run on the whole family "
+            "null law (2-3 atoms, dyadic weights, all k^n sequences, n <= 7 / 9), or a population of N in {12,16,24,32} with at most 3 minority values, or a tiny comparison audit whose reported outcome is wrong (every ordering of the cards through the real set_p_values / summarize_status); the real code is run on the whole family "
             "and for every attained alpha < 1 the exact fraction with min(p, min_j p_j) <= alpha is compared with alpha. "
             "No statistical test is involved in the quick tier; the thorough tier adds Monte-Carlo cells at N = 200, 1000 "
             "that alarm only when the exact binomial tail is below 1e-9. It decides the populations enumerated, not all N.",
@@ -90,20 +90,20 @@ CHECKS = {
             "trusted: pandas; unique (tabulator, batch) labels; Dominion 1-based and Hart 0-based lookups as documented",
             "DESIGN.md section 4, C17"),
     "C04": ("brute-force reference monitor: recount of every returned assertion from the raw rankings and an n!-order sufficiency / auditability oracle run beside the real compute_raire_assertions",
-            "Exploration by runtime monitoring: for each generated profile (2-6 candidates, partial rankings, blanks, cards "
+            "Exploration by runtime monitoring: for each generated profile (2-7 candidates, 8 in the thorough tier; partial rankings, blanks, cards "
             "lacking the contest, ties at the first/last round, symmetric profiles, right/runner-up/random reported winner, "
             "both difficulty functions, order hints) the real generator's list is checked: every assertion recounts to its "
             "reported tallies with the winner strictly ahead; every elimination order ending in another candidate is "
             "contradicted; the list is empty exactly when even all true assertions together leave an order uncontradicted.",
             "trusted: the definitions of NEB/NEN and of 'contradicts' in vlib/irv.py (written from the RAIRE papers, not from "
-            "the code); more than 6 candidates are not explored",
+            "the code); more than 8 candidates are not explored",
             "DESIGN.md section 4, C04"),
     "C15": ("brute-force reference monitor: min-max difficulty over all true assertions and all n! orders vs max difficulty of the real result",
-            "Exploration by runtime monitoring: on auditable profiles (3-6 candidates) the optimum = max over alternative "
+            "Exploration by runtime monitoring: on auditable profiles (3-7 candidates, 8 in the thorough tier) the optimum = max over alternative "
             "orders of the cheapest true assertion contradicting it is computed by brute force with the shipped difficulty "
             "function and compared (rtol 1e-9) with the largest difficulty in the list returned by the real search, with and "
             "without (right or wrong) order hints, for both difficulty functions.",
-            "trusted: vlib/irv.py; agap = 0; more than 6 candidates are not explored",
+            "trusted: vlib/irv.py; agap = 0; more than 8 candidates are not explored",
             "DESIGN.md section 4, C15"),
     "C14": ("exhaustive enumeration of (ballot, assertion) pairs through both real implementations; reader-vs-reader comparison on generated files; re-application of returned assertions",
             "Exploration by runtime monitoring, exhaustive on its main clause: for n = 2..6 candidates every partial ranking x "
